@@ -169,8 +169,8 @@ func (k *c13Checker) check(t *aspenkit.ClusterTrace, cp *aspenkit.Checkpoint, re
 						break
 					}
 				}
-				if bad {
-					continue
+				if bad || cp.NotQuiescent {
+					continue // log equality needs both handlers to have drained
 				}
 				if u.Phase == "mid" {
 					// attached one after the other while traffic flowed: one log may miss
